@@ -31,8 +31,8 @@ func vpMkIRI(tag byte) IRI {
 }
 
 func vpMk_IRI(shape int, tag byte) IRI { return vpMkIRI(tag) }
-func vpEq_IRI(a, b IRI) bool            { return a == b }
-func vpZero_IRI(a IRI) bool             { return len(a) == 0 }
+func vpEq_IRI(a, b IRI) bool           { return a == b }
+func vpZero_IRI(a IRI) bool            { return len(a) == 0 }
 
 func vpMk_Type(shape int, tag byte) ActivityVocabularyType { return NoteType }
 func vpEq_Type(a, b ActivityVocabularyType) bool           { return a == b }
@@ -51,8 +51,8 @@ func vpZero_TypeName(a ActivityVocabularyType) bool  { return len(a) == 0 }
 func vpMk_Mime(shape int, tag byte) MimeType {
 	return MimeType("text/" + string([]byte{vpLeafLower(), vpLeafLower()}))
 }
-func vpEq_Mime(a, b MimeType) bool           { return a == b }
-func vpZero_Mime(a MimeType) bool            { return len(a) == 0 }
+func vpEq_Mime(a, b MimeType) bool { return a == b }
+func vpZero_Mime(a MimeType) bool  { return len(a) == 0 }
 
 func vpText2() Content { return Content{vpLeafLower(), vpLeafLower()} }
 
@@ -165,14 +165,14 @@ var vpTimes = []time.Time{
 }
 
 func vpMk_Time(shape int, tag byte) time.Time { return vpTimes[shape%len(vpTimes)] }
-func vpEq_Time(a, b time.Time) bool          { return a.Equal(b) }
-func vpZero_Time(a time.Time) bool           { return a.IsZero() }
+func vpEq_Time(a, b time.Time) bool           { return a.Equal(b) }
+func vpZero_Time(a time.Time) bool            { return a.IsZero() }
 
 var vpDurations = []time.Duration{90 * time.Second, time.Hour, 25 * time.Hour}
 
 func vpMk_Duration(shape int, tag byte) time.Duration { return vpDurations[shape%len(vpDurations)] }
-func vpEq_Duration(a, b time.Duration) bool         { return a == b }
-func vpZero_Duration(a time.Duration) bool          { return a == 0 }
+func vpEq_Duration(a, b time.Duration) bool           { return a == b }
+func vpZero_Duration(a time.Duration) bool            { return a == 0 }
 
 // source: 0 content + media type, 1 content only, 2 media type only, 3 two-language content only
 func vpMk_Source(shape int, tag byte) Source {
@@ -188,8 +188,10 @@ func vpMk_Source(shape int, tag byte) Source {
 	}
 	return s
 }
-func vpEq_Source(a, b Source) bool { return a.MediaType == b.MediaType && vpEq_NLV(a.Content, b.Content) }
-func vpZero_Source(a Source) bool  { return len(a.MediaType) == 0 && len(a.Content) == 0 }
+func vpEq_Source(a, b Source) bool {
+	return a.MediaType == b.MediaType && vpEq_NLV(a.Content, b.Content)
+}
+func vpZero_Source(a Source) bool { return len(a.MediaType) == 0 && len(a.Content) == 0 }
 
 func vpMk_Uint(shape int, tag byte) uint {
 	if !vpSymLeaves {
@@ -197,8 +199,8 @@ func vpMk_Uint(shape int, tag byte) uint {
 	}
 	return uint(vpInt(1, 99))
 }
-func vpEq_Uint(a, b uint) bool           { return a == b }
-func vpZero_Uint(a uint) bool            { return a == 0 }
+func vpEq_Uint(a, b uint) bool { return a == b }
+func vpZero_Uint(a uint) bool  { return a == 0 }
 
 func vpMk_Int(shape int, tag byte) int64 {
 	if !vpSymLeaves {
